@@ -4,6 +4,7 @@ import (
 	"fmt"
 	"go/ast"
 	"go/token"
+	"strconv"
 	"strings"
 )
 
@@ -70,6 +71,11 @@ func (x *X) IntExpr(e ast.Expr, vars map[string]string, intDiv bool) string {
 				return fmt.Sprint(n)
 			}
 		}
+		if t.Kind == token.CHAR { // a byte constant such as '0'
+			if r, _, _, err := strconv.UnquoteChar(strings.Trim(t.Value, "'"), '\''); err == nil {
+				return fmt.Sprint(int(r))
+			}
+		}
 	case *ast.UnaryExpr:
 		if t.Op == token.SUB {
 			return "(-" + x.IntExpr(t.X, vars, intDiv) + ")"
@@ -108,6 +114,8 @@ func (x *X) IntExpr(e ast.Expr, vars map[string]string, intDiv bool) string {
 			return "(" + l + " % " + r + ")"
 		case token.AND:
 			return "(" + l + " &&& " + r + ")"
+		case token.AND_NOT: // l &^ r = l - (l & r)  (bit clear; exact on Nat and on non-negative Int)
+			return "(" + l + " - (" + l + " &&& " + r + "))"
 		case token.OR:
 			return "(" + l + " ||| " + r + ")"
 		case token.XOR:
